@@ -103,6 +103,24 @@ def run_units(ctx):
         ctx.case(key=("unit", arg), nontrivial=any(x not in (None, False) for x in t),
                  cls=f"unit:cert={h2lib.CERT[t[0]]}:chk={t[1]}:ctx={int(t[6])}:{real.split('/')[0][:8]}",
                  sample={"sslopt": sslopt_arg(so), "env": env, "real": real} if len(ctx.samples) < 4 and t[0] is not None and t[4] else None)
+    # the same products with `ssl_version` naming a legacy protocol constant (such a context STARTS unverified):
+    # the policy must be what it is without the option
+    import warnings
+    for ver in (ssl.PROTOCOL_TLS, ssl.PROTOCOL_TLSv1_2, ssl.PROTOCOL_TLS_CLIENT):
+        for t in itertools.product(CERTS, CHECKS, CAFILES[:2], [None], ENVS[:2], SNIS[:2], [False]):
+            so, env, isfile, isdir = mk(*t)
+            so = dict(so or {}, ssl_version=ver)
+            host = "url-host.example"
+            with warnings.catch_warnings():
+                warnings.simplefilter("ignore")
+                real, net = real_policy(so, env, isfile, isdir, host)
+            arg = f"{sslopt_arg(so)} {tlsenv_arg(env, isfile, isdir)} {hx(host)}"
+            lines_m.append("m-tls-policy " + arg)
+            lines_s.append("s-tls-policy " + arg)
+            obs.append(real)
+            ins.append({"sslopt": sslopt_arg(so), "ssl_version": str(ver), "env": env, "isfile": list(isfile), "isdir": list(isdir),
+                        "host": host, "tuple": [str(x) for x in t]})
+            ctx.case(key=("unit-ver", arg), nontrivial=True, cls=f"unit:ssl_version={'client' if ver == ssl.PROTOCOL_TLS_CLIENT else 'legacy'}:cert={h2lib.CERT[t[0]]}:chk={t[1]}")
     out = common.run_driver_parallel(lines_m + lines_s)
     mo, so_ = out[:len(lines_m)], out[len(lines_m):]
     for inp, m, s, r in zip(ins, mo, so_, obs):
